@@ -12,7 +12,8 @@
    max(max(min(x, max), min), 0); effmax mn m = max(max(m, mn), 0) (= m when mn <= m and 0 <= m),
    effmin mn = max(mn, 0) (= mn when 0 <= mn). *)
 From Coq Require Import ZArith QArith Bool List Lia Lqa.
-From TV Require Import Num.Num Num.QNum Gen.FlexGen Model.Flex Model.FlexRun Proofs.FlexQ Proofs.FlexProofs.
+From TV Require Import Num.Num Num.QNum Model.Common Model.Leaf Gen.FlexGen Model.Flex Model.FlexLines Model.FlexBase
+                       Model.FlexContainer Model.FlexRun Proofs.FlexQ Proofs.FlexProofs Proofs.FlexLinesProofs Proofs.FlexBaseProofs.
 Import ListNotations.
 Open Scope Q_scope.
 
@@ -106,6 +107,257 @@ Definition fq (z : Z) : XQ := Fin (inject_Z z).
 Definition wi (b ib h ho mn : Z) (mx : option Z) (g s ms me : Z) (msa mea : bool) (ot : Z) : Item :=
   mkItem (fq b) (fq ib) (fq h) (fq ho) (fq mn) (option_map fq mx) (fq g) (fq s) (fq ms) (fq me) msa mea (fq 0)
          false (fq 0) (fq ot) (fq 0) (fq 0).
+
+(* ================================================================================================ flex lines
+   collect_flex_lines (Model/FlexLines.v): `hyp c` = hypothetical outer main size of item c, `avail` the available main
+   space, (mx, mn) the container's max / min main size (lines_available: with a max size the space is
+   Definite(max(avail or max, min))).  Lines are lists of items in document order, in order of creation. *)
+
+(* ---- the lines are a partition of the item list into consecutive runs, order preserved; no line is empty (unless there is
+   no item at all: then nowrap / max-content give one empty line, wrap gives none).  Any number type: no arithmetic fact is used. *)
+Theorem C07_lines_partition : forall {T : Type} `{Num T} {A : Type} (hyp : A -> T) (is_wrap : bool) (mx mn : option T)
+                                     (avail : AvailableSpace T) (gap : T) (items : list A),
+  let lines := collect_flex_lines hyp is_wrap mx mn avail gap items in
+  concat lines = items /\
+  (items <> [] -> Forall (fun l => l <> []) lines) /\
+  (items = [] -> lines = [] \/ lines = [[]]).
+Proof. intros. apply lines_partition. Qed.
+
+(* ---- a line with more than one item fits: sum of hypothetical outer sizes + gaps between them <= available space *)
+Theorem C07_lines_fit : forall {A : Type} (hyp : A -> XQ) (mx mn : option XQ) (avail : AvailableSpace XQ) (gap : XQ)
+                               (items : list A) (a : XQ),
+  finite gap -> finite a -> (forall c, In c items -> finite (hyp c)) ->
+  lines_available mx mn avail = Definite a ->
+  forall line, In line (collect_flex_lines hyp true mx mn avail gap items) -> (2 <= length line)%nat ->
+    qsum (fun c => val (hyp c)) line + val (sum_axis_gaps gap (zlen line)) <= val a.
+Proof. intros A hyp. exact (lines_fit hyp). Qed.
+
+(* a single-item line may overflow: one item of 150 in 100 *)
+Example C07_lines_single_item_may_overflow :
+  collect_flex_lines (fun x : XQ => x) true None None (Definite (fq 100)) (fq 0) [fq 150; fq 30] = [[fq 150]; [fq 30]].
+Proof. vm_compute. reflexivity. Qed.
+
+(* ---- greedy: no line could have taken the first item of the next line *)
+Theorem C07_lines_greedy : forall {A : Type} (hyp : A -> XQ) (mx mn : option XQ) (avail : AvailableSpace XQ) (gap : XQ)
+                                  (items : list A) (a : XQ),
+  finite gap -> finite a -> (forall c, In c items -> finite (hyp c)) ->
+  lines_available mx mn avail = Definite a ->
+  forall pre l1 c l2 post, collect_flex_lines hyp true mx mn avail gap items = pre ++ l1 :: (c :: l2) :: post ->
+    l1 <> [] /\ val a < qsum (fun c => val (hyp c)) l1 + val (sum_axis_gaps gap (zlen l1)) + val gap + val (hyp c).
+Proof. intros A hyp. exact (lines_greedy hyp). Qed.
+
+(* the same two laws for any number type, as the loop's own tests on its running `line_length` (IEEE `>`: never true on NaN) *)
+Theorem C07_lines_tests_any_num : forall {T : Type} `{Num T} {A : Type} (hyp : A -> T) (mx mn : option T)
+                                         (avail : AvailableSpace T) (gap : T) (items : list A) (a : T),
+  lines_available mx mn avail = Definite a ->
+  let lines := collect_flex_lines hyp true mx mn avail gap items in
+  (forall line, In line lines -> (2 <= length line)%nat -> gtb (line_length hyp gap line) a = false) /\
+  (forall pre l1 c l2 post, lines = pre ++ l1 :: (c :: l2) :: post -> gtb (line_length hyp gap (l1 ++ [c])) a = true).
+Proof.
+  intros T N A hyp mx mn avail gap items a E. cbn zeta.
+  pose proof (definite_lines_spec hyp mx mn avail gap items a E) as S. split.
+  - exact (lines_spec_fit hyp a gap items _ S).
+  - exact (lines_spec_greedy hyp a gap items _ S).
+Qed.
+
+(* ---- single line: nowrap; wrap under a max-content constraint; wrap when everything fits (non-negative sizes and gap).
+   Under a min-content constraint every item gets a line of its own. *)
+Theorem C07_nowrap_single_line : forall {T : Type} `{Num T} {A : Type} (hyp : A -> T) mx mn avail gap (items : list A),
+  collect_flex_lines hyp false mx mn avail gap items = [items].
+Proof. intros. apply nowrap_single_line. Qed.
+
+Theorem C07_max_content_single_line : forall {T : Type} `{Num T} {A : Type} (hyp : A -> T) mx mn avail gap (items : list A),
+  lines_available mx mn avail = MaxContent -> collect_flex_lines hyp true mx mn avail gap items = [items].
+Proof. intros. apply max_content_single_line. assumption. Qed.
+
+Theorem C07_min_content_one_item_per_line : forall {T : Type} `{Num T} {A : Type} (hyp : A -> T) mx mn avail gap (items : list A),
+  lines_available mx mn avail = MinContent -> collect_flex_lines hyp true mx mn avail gap items = map (fun c => [c]) items.
+Proof. intros. apply min_content_one_item_per_line. assumption. Qed.
+
+Theorem C07_wrap_single_line_when_fits : forall {A : Type} (hyp : A -> XQ) mx mn avail (gap : XQ) (items : list A) (a : XQ),
+  finite gap -> finite a -> 0 <= val gap -> (forall c, In c items -> finite (hyp c) /\ 0 <= val (hyp c)) ->
+  lines_available mx mn avail = Definite a -> items <> [] ->
+  qsum (fun c => val (hyp c)) items + val (sum_axis_gaps gap (zlen items)) <= val a ->
+  collect_flex_lines hyp true mx mn avail gap items = [items].
+Proof. intros A hyp. exact (wrap_single_line_when_fits hyp). Qed.
+
+(* ================================================================================================ flex base size
+   determine_flex_base_size (Model/FlexBase.v) for one child c of a container with constants k; ci = what
+   generate_anonymous_flex_items resolved (child_info k c); the child's own layout is the function ch_layout c. *)
+
+(* ---- case order: A definite flex-basis; else B / "definite main size" (the aspect-ratio transfer was made when the size was
+   resolved); else (C = E, D not implemented) the child's measured size under max-content (min-content when the container is
+   itself measured under min-content).  Then the result is floored by padding+border (C07_hyp_is_clamped_basis). *)
+Theorem C07_flex_base_size_cases : forall {T : Type} `{Num T} (k : Constants T) avail (c : Child T) (ci : ChildInfo T),
+  let e := base_env k avail c ci in
+  let row := k_row k in
+  (forall b, be_style_basis e = Some b -> flex_base_size k avail c ci e = b) /\
+  (forall s, be_style_basis e = None -> s_main row (ci_size ci) = Some s -> flex_base_size k avail c ci e = s) /\
+  (be_style_basis e = None -> s_main row (ci_size ci) = None ->
+   flex_base_size k avail c ci e =
+     s_main row (ch_layout c (mkInput ComputeSize ContentSize (be_known e) (be_parent e)
+                                      (s_of_mc row (if avail_is_min_content (s_main row avail) then MinContent else MaxContent)
+                                               (be_cross_avail e))))) /\
+  (ch_flex_basis c = Auto -> be_style_basis e = None).
+Proof.
+  intros T N k avail c ci. cbn zeta. split; [|split; [|split]].
+  - apply base_case_A.
+  - apply base_case_B.
+  - apply base_case_E.
+  - apply style_basis_auto.
+Qed.
+
+(* B: aspect ratio r, auto main size, cross size v (border-box): the resolved main size is v * r in a row, v / r in a column *)
+Theorem C07_aspect_ratio_basis : forall {T : Type} `{Num T} (k : Constants T) (c : Child T) (r v : T),
+  aspect_ratio (ch_style c) = Some r -> box_sizing (ch_style c) = BorderBox ->
+  s_main (k_row k) (size (ch_style c)) = Auto -> s_cross (k_row k) (size (ch_style c)) = Length v ->
+  s_main (k_row k) (ci_size (child_info k c)) = Some (add (if k_row k then mul v r else div v r) zero).
+Proof. intros. apply aspect_ratio_main_size; assumption. Qed.
+
+(* the resolved minimum main size: explicit min-size; 0 for a scroll container in the main axis; else the automatic minimum
+   max(min(min-content size, specified size, max size), padding+border) *)
+Theorem C07_automatic_minimum : forall {T : Type} `{Num T} (k : Constants T) avail (c : Child T) (ci : ChildInfo T),
+  let e := base_env k avail c ci in
+  let row := k_row k in
+  let ov := if row then px (overflow (ch_style c)) else py (overflow (ch_style c)) in
+  (forall m, s_main row (ci_min ci) = Some m -> resolved_minimum_main_size k c ci e = m) /\
+  (s_main row (ci_min ci) = None -> is_scroll_container ov = true -> resolved_minimum_main_size k c ci e = zero) /\
+  (s_main row (ci_min ci) = None -> is_scroll_container ov = false ->
+   resolved_minimum_main_size k c ci e =
+     fmax (maybe_min_fo
+             (maybe_min_fo
+                (s_main row (ch_layout c (mkInput ComputeSize ContentSize (be_known e) (be_parent e)
+                                                  (s_with_cross row (mkSize MinContent MinContent) (be_cross_avail e)))))
+                (s_main row (ci_size ci)))
+             (s_main row (ci_max ci)))
+          (s_main row (sum_axes (rect_add (ci_padding ci) (ci_border ci))))).
+Proof.
+  intros T N k avail c ci. cbn zeta. split; [|split].
+  - apply resolved_min_explicit.
+  - apply resolved_min_scroll_container.
+  - apply resolved_min_automatic.
+Qed.
+
+(* ---- the hypothetical inner main size is the loop's clamp of the flex base size.
+   base_fin: the measured / resolved quantities of the child are finite, padding and border are not negative.
+   pb_class: no max size, or padding+border <= max size, or padding+border <= resolved minimum size.
+   Conclusion: exh_prem it -- exactly the per-item premise of C07_exhausted (all fields finite, not frozen,
+   hyp_inner == max(max(min(flex_basis, max), min), 0), hyp_outer == hyp_inner + margins) -- and
+   flex_basis == max(flex base size, padding+border), inner_flex_basis == flex_basis - padding - border. *)
+Theorem C07_hyp_is_clamped_basis : forall (k : Constants XQ) avail (c : Child XQ) (ci : ChildInfo XQ),
+  base_fin k avail c ci -> pb_class k avail c ci ->
+  let it := determine_flex_base_size k avail c ci in
+  exh_prem it /\
+  qb it == qmx (val (flex_base_size k avail c ci (base_env k avail c ci))) (qpb (k_row k) ci) /\
+  qib it == qb it - qpb (k_row k) ci /\
+  qmin it = val (resolved_minimum_main_size k c ci (base_env k avail c ci)).
+Proof. exact hyp_is_clamped_basis. Qed.
+
+(* outside pb_class the equation is false (finding F-C07-pbfloor): flex-basis 50, min 5, max 10, padding-start 20 in a row 100
+   wide: the hypothetical size is floored by padding+border (20), the loop's clamp of the basis is max(min(50,10),5,0) = 10 *)
+Definition w_zero_rect_lpa : Rect (LengthPercentageAuto XQ) := mkRect (Length (fq 0)) (Length (fq 0)) (Length (fq 0)) (Length (fq 0)).
+Definition w_rect_lp (l : Z) : Rect (LengthPercentage XQ) := mkRect (LpLength (fq l)) (LpLength (fq 0)) (LpLength (fq 0)) (LpLength (fq 0)).
+Definition w_row_container (wrap : bool) (main gap : Z) : ContainerStyle XQ :=
+  mkCStyle true false wrap false None (Some AC_Start) (Some AS_Start)
+           (mkSize (Length (fq main)) (Length (fq 100))) (mkSize Auto Auto) (mkSize Auto Auto)
+           w_zero_rect_lpa (w_rect_lp 0) (w_rect_lp 0) (mkSize (LpLength (fq gap)) (LpLength (fq 0))) BorderBox None.
+(* a child that is laid out at whatever size it is told (ch_layout: the known dimensions, 0 where unknown) *)
+Definition w_leaf (basis : Z) (mn mx : Dimension XQ) (pad_left : Z) (shrink : Z) : Child XQ :=
+  mkChild (Leaf.mkStyle DFlex Relative BorderBox (mkPoint Visible Visible) (fq 0)
+                        (mkSize Auto (Length (fq 20))) (mkSize mn Auto) (mkSize mx Auto) None
+                        w_zero_rect_lpa (w_rect_lp pad_left) (w_rect_lp 0))
+          (Length (fq basis)) (fq 0) (fq shrink) None
+          (fun inp => mkSize (opt_unwrap_or (width (known_dimensions inp)) (fq 0)) (opt_unwrap_or (height (known_dimensions inp)) (fq 0))).
+Definition w_k (wrap : bool) (main gap : Z) : Constants XQ :=
+  compute_constants (w_row_container wrap main gap) (mkSize (Some (fq main)) (Some (fq 100))) (mkSize None None).
+Definition w_avail (main : Z) : Size (AvailableSpace XQ) := mkSize (Definite (fq main)) (Definite (fq 100)).
+
+Theorem C07_hyp_is_clamped_basis_refuted :
+  exists (k : Constants XQ) avail (c : Child XQ),
+    let ci := child_info k c in
+    let it := determine_flex_base_size k avail c ci in
+    base_fin k avail c ci /\ ~ pb_class k avail c ci /\
+    qb it == 50 /\ qmin it == 5 /\ qmaxo it = Some (inject_Z 10) /\ qcl it (qb it) == 10 /\ qh it == 20.
+Proof.
+  exists (w_k false 100 0), (w_avail 100), (w_leaf 50 (Length (fq 5)) (Length (fq 10)) 20 1).
+  cbn zeta. split; [|split].
+  - unfold base_fin, fin_rect, nonneg_rect. vm_compute. repeat split; try exact I; intro; discriminate.
+  - unfold pb_class. vm_compute. intros [H|H]; apply H; reflexivity.
+  - vm_compute. repeat split; reflexivity.
+Qed.
+
+(* ---- C07_exhausted with that premise discharged: items built from the children's styles by determine_flex_base_size *)
+Theorem C07_exhausted_from_styles : forall (k : Constants XQ) avail (children : list (Child XQ)) (gap M : XQ),
+  let items := map (fun c => determine_flex_base_size k avail c (child_info k c)) children in
+  finite gap -> finite M ->
+  (forall c, In c children -> base_fin k avail c (child_info k c) /\ pb_class k avail c (child_info k c)) ->
+  let gaps := val (sum_axis_gaps gap (zlen items)) in
+  let hyp_total := gaps + qsum qho items in
+  (hyp_total < val M -> forall c, In c items -> grow_ok c) ->
+  (val M < hyp_total -> forall c, In c items -> shrink_ok c) ->
+  exists res, resolve_flexible_lengths items gap (Some M) = Some res /\ Forall2 static_eq items res /\
+    (forall c, In c res -> fi_frozen c = true /\ item_fin c /\ qot c == qt c + qm c) /\
+    (gaps + qsum qot res == val M \/
+     (hyp_total < val M /\ forall c, In c res -> ~ qg c == 0 -> at_max c) \/
+     (val M < hyp_total /\ forall c, In c res -> ~ qs c == 0 -> ~ qib c == 0 -> at_min c)).
+Proof. exact exhausted_from_styles. Qed.
+
+(* ================================================================================================ multi-line containers
+   main_axis_lines k avail items (Model/FlexContainer.v) = collect_flex_lines, then resolve_flexible_lengths on every line:
+   what compute_preliminary (the function the correspondence check K2 runs) uses for steps 5-6. *)
+
+(* ---- the lines hold the container's children in document order; no line is empty; within every line the order law of
+   C07_order_no_overlap holds (premises on the items of that line, as there) *)
+Theorem C07_order_no_overlap_lines : forall (k : Constants XQ) avail (items : list (Work XQ)) lines,
+  main_axis_lines k avail items = Some lines ->
+  concat (map (map w_child) lines) = map w_child items /\
+  (items <> [] -> Forall (fun l => l <> []) lines) /\
+  forall ln, In ln lines -> forall (inner start : XQ) (sizes : list XQ),
+    let gap := s_main (k_row k) (k_gap k) in
+    finite gap -> 0 <= val gap -> finite inner -> finite start ->
+    (forall w, In w ln -> oprem (w_item w)) ->
+    length sizes = length ln -> (forall s, In s sizes -> finite s /\ 0 <= val s) ->
+    let its := map w_item ln in
+    let items' := distribute_remaining_free_space its gap inner (k_justify k) (k_reverse k) in
+    let pos := line_positions start (k_reverse k) (combine items' sizes) in
+    Forall2 (fun c c' => fi_margin_start c' = fi_margin_start c /\ fi_margin_end c' = fi_margin_end c) its items' /\
+    ForallOrdPairs (fun a b => if k_reverse k then sepR (val gap) b a else sepR (val gap) a b) (combine (combine items' sizes) pos).
+Proof. exact order_no_overlap_lines. Qed.
+
+(* the lines are those of collect_flex_lines, item by item, with only the non-static fields (target sizes, frozen, violation) changed *)
+Theorem C07_main_axis_lines_are_collected_lines : forall (k : Constants XQ) avail (items : list (Work XQ)) lines,
+  main_axis_lines k avail items = Some lines ->
+  let row := k_row k in
+  Forall2 (Forall2 same_work)
+          (collect_flex_lines w_hyp_outer (k_wrap k) (s_main row (k_max k)) (s_main row (k_min k)) (s_main row avail)
+                              (s_main row (k_gap k)) items)
+          lines.
+Proof. exact main_axis_lines_spec. Qed.
+
+(* ---- across lines, cross axis: final_layout_pass walks the lines (creation order; reversed for wrap-reverse) with the
+   accumulator total_offset_cross (line_starts); with the offsets of align_flex_lines_per_align_content the line boxes
+   [start + offset, start + offset + cross_size] are stacked in walking order, separated by at least the cross gap.
+   css = the lines' cross sizes in walking order (>= 0: they are folds of max from 0.0). *)
+Theorem C07_lines_cross_stacked : forall (free gap total : XQ) (mode : AlignContent) (rv : bool) (css : list XQ),
+  finite free -> finite gap -> 0 <= val gap -> finite total ->
+  (forall c, In c css -> finite c /\ 0 <= val c) ->
+  let n := zlen css in
+  let offs := map_first (fun _ : XQ => compute_alignment_offset free n gap mode rv true)
+                        (fun _ : XQ => compute_alignment_offset free n gap mode rv false) css in
+  let l := combine offs css in
+  ForallOrdPairs (fun a b => val (snd a) + val (fst (fst a)) + val (snd (fst a)) + val gap <= val (snd b) + val (fst (fst b)))
+                 (combine l (line_starts total l)).
+Proof. exact lines_cross_stacked. Qed.
+
+(* non-vacuity: five 40-wide children in a wrapping row 100 wide with gap 10 (40+10+40 = 90 <= 100 < 140): lines of 2, 2, 1;
+   x = 0, 50 on every line; the lines at y = 0, 20, 40 (children 20 high, align-content: start) *)
+Definition ex_wrap_children : list (Child XQ) := repeat (w_leaf 40 (Length (fq 0)) Auto 0 0) 5.
+Example C07_example_wrap :
+  option_map (fun '(sz, lines) => (Qred (val (width sz)), map (map (fun p => (Qred (val (p_loc_main p)), Qred (val (p_loc_cross p))))) lines))
+             (compute_flexbox_layout (w_row_container true 100 10) (mkSize None None) (mkSize None None)
+                                     (mkSize MaxContent MaxContent) InherentSize ex_wrap_children)
+  = Some (100, [[(0, 0); (50, 0)]; [(0, 20); (50, 20)]; [(0, 40)]]).
+Proof. vm_compute. reflexivity. Qed.
 
 (* FINDING (not a violation of the no-overlap law): on a line where auto margins absorb the free space the gap is not
    inserted between the items.  100 wide, gap 10, two 20-wide items, the second with margin-start: auto:
@@ -212,3 +464,20 @@ Print Assumptions C07_justify_offsets_spec.
 Print Assumptions C07_gap_dropped_with_auto_margins_refuted.
 Print Assumptions C07_inset_refuted.
 Print Assumptions C07_exhausted_laid_out_sizes_refuted.
+Print Assumptions C07_lines_partition.
+Print Assumptions C07_lines_fit.
+Print Assumptions C07_lines_greedy.
+Print Assumptions C07_lines_tests_any_num.
+Print Assumptions C07_nowrap_single_line.
+Print Assumptions C07_max_content_single_line.
+Print Assumptions C07_min_content_one_item_per_line.
+Print Assumptions C07_wrap_single_line_when_fits.
+Print Assumptions C07_flex_base_size_cases.
+Print Assumptions C07_aspect_ratio_basis.
+Print Assumptions C07_automatic_minimum.
+Print Assumptions C07_hyp_is_clamped_basis.
+Print Assumptions C07_hyp_is_clamped_basis_refuted.
+Print Assumptions C07_exhausted_from_styles.
+Print Assumptions C07_order_no_overlap_lines.
+Print Assumptions C07_main_axis_lines_are_collected_lines.
+Print Assumptions C07_lines_cross_stacked.
